@@ -42,7 +42,8 @@ ASSUMPTIONS = [
 ]
 
 SGR = re.compile(rb'\x1b\[([0-9;]*)m')
-DEFAULT_CONFIG = open('/repo/cli/src/default_config.toml', 'rb').read()
+DEFAULT_CONFIG = open(os.path.join(vlib.REPO, 'cli', 'src', 'default_config.toml'), 'rb').read()
+CORPUS = os.path.join(vlib.ROOT, 'corpus', 'C19')
 KN_ARG = 'non-unicode-argument'
 KN_256 = 'color256-number-doubled'
 KN_BIF = 'builtin-function-color-key'
@@ -681,12 +682,11 @@ def config_layer(c, run, r, n, stats):
 def colours_layer(c, run, stats):
     d = os.path.join(run.scratch, 'cfg_colours')
     os.makedirs(d)
+    wit = json.load(open(os.path.join(CORPUS, 'fixed_colours.json')))
     with open(os.path.join(d, 'config.toml'), 'w') as fh:
-        fh.write("enable-colors = 'always'\n[colors]\nnumber = { foreground = '256:214', bold = true }\nstring = { foreground = 'green' }\n"
-                 "identifier = { foreground = 'red', underline = true }\nkeyword = { foreground = 'cyan' }\n"
-                 "built-in-function = { foreground = 'magenta' }\ndate = { foreground = 'yellow' }\nother = {}\n")
-    want_style = {'number': b'1;38;5;214', 'string': b'32', 'identifier': b'4;31', 'keyword': b'36', 'built-in-function': b'35', 'date': b'33', 'other': b'39'}
-    exprs = ['1 + 1', '1.5 kg', '"text"', 'x = 3', '5 m to cm', '@no_trailing_newline 7', '()', 'true', '2 kg + 3 g', 'sin', 'abs', 'sqrt', 'x: x + 1', 'pi', 'f = cos']
+        fh.write(wit['config_toml'])
+    want_style = {k: v.encode() for k, v in wit['styles'].items()}
+    exprs = wit['exprs']
     hl = [harness_line([0, 0, []], [e.encode()]) for e in exprs]
     hres = c.impl('cli', hl)
     outs = run.run([(['-e', e], None, run.env(d)) for e in exprs])
@@ -709,7 +709,7 @@ def colours_layer(c, run, stats):
             else:
                 c.violation('colour-256-escape', dict(rep, kind='impl-vs-spec', what='256-colour escape carries the number twice'))
                 continue
-        if e in ('sin', 'abs', 'f = cos') and want_style['built-in-function'] not in codes and b'39' in codes:
+        if e in wit['builtin_exprs'] and want_style['built-in-function'] not in codes and b'39' in codes:
             if not c.known_finding(KN_BIF):
                 c.violation('builtin-function-colour-ignored', dict(rep, kind='impl-vs-spec'))
                 continue
@@ -754,14 +754,15 @@ def check(c):
     cases += [(['-e', '1'], b'2'), (['--'], b'3+3'), (['-h'], b'1')]
     eval_layer(c, run, cases, nocfg, 'M', stats)
     # a non-Unicode argument (the listed finding)
-    outs = run.run([([b'1 + \xff'], None, run.env(nocfg)), ([b'-e', b'\xc3'], None, run.env(nocfg))])
-    for rc, so, se in outs:
-        c.note_case('M:non-unicode:%r' % (se[:20],), True, 'M-non-unicode-argument')
+    wit = json.load(open(os.path.join(CORPUS, 'fixed_non_unicode_argument.json')))['args_hex']
+    outs = run.run([([bytes.fromhex(a) for a in al], None, run.env(nocfg)) for al in wit])
+    for al, (rc, so, se) in zip(wit, outs):
+        c.note_case('M:non-unicode:%r' % (al,), True, 'M-non-unicode-argument')
         if rc == 101 and b'panicked' in se:
             if not c.known_finding(KN_ARG):
-                c.violation('non-unicode-argument-panics', {'kind': 'impl-vs-spec', 'args_hex': '31202b20ff', 'exit': rc, 'stderr': se.decode('utf-8', 'replace')[:400]})
+                c.violation('non-unicode-argument-panics', {'kind': 'impl-vs-spec', 'args_hex': al, 'exit': rc, 'stderr': se.decode('utf-8', 'replace')[:400]})
         elif not (rc == 1 and so == b'' and se.startswith(b'Error: ')):
-            c.violation('non-unicode-argument-shape', {'kind': 'impl-vs-spec', 'exit': rc, 'stdout': repr(so[:100]), 'stderr': se.decode('utf-8', 'replace')[:400]})
+            c.violation('non-unicode-argument-shape', {'kind': 'impl-vs-spec', 'args_hex': al, 'exit': rc, 'stdout': repr(so[:100]), 'stderr': se.decode('utf-8', 'replace')[:400]})
         else:
             stats['M-non-unicode-argument-error'] += 1
     # ---- K ----
